@@ -37,6 +37,7 @@ def run(tier, seed):
              'quantifiers), so a long or adversarial token exhausts the stack or never returns')
     fns = loader_functions(prog)
     _regex(rep, prog, fns)
+    _finite(rep, prog, fns)
     rep.analysed['functions with stream extraction'] = [f['qn'] for f in fns]
     n = 0
     for fn in fns:
@@ -351,3 +352,57 @@ def _regex(rep, prog, fns):
             % (nfun, len(fns), nuse), True, nontrivial=False)
     rep.analysed['functions reachable from loaders (regex scan)'] = nfun
     rep.floor('REGEX.input', nfun, 15)
+
+
+# ---------------------------------------------------------------- FINITE.text-to-float
+_TEXT2FLOAT = ('strtod', 'std::strtod', 'strtof', 'std::strtof', 'strtold', 'std::strtold', 'atof', 'std::atof',
+               'std::stod', 'std::stof', 'std::stold')
+
+
+def _finite(rep, prog, fns):
+    """stream extraction (`in >> x`) refuses the spellings nan, inf, infinity, hexadecimal floats and overflowing exponents; the C
+    conversion routines accept them.  A value converted that way from file text must be tested with isfinite() before it is kept."""
+    from .. import callgraph
+    rep.rule('FINITE.text-to-float', 'a floating-point value obtained from file text with strtod/stod/atof (which accept `nan`, '
+             '`inf`, hexadecimal floats and overflowing exponents, all refused by stream extraction) is tested with std::isfinite (or '
+             'isnan and isinf) on the way to a throw before it is used: otherwise a corrupted table is loaded with non-finite entries')
+    cg = callgraph.CallGraph(prog)
+    file_loaders = [f for f in fns if '/programs/' not in f.get('file', '')]
+    keys = [k for k, f in prog.functions.items() if any(f is g for g in file_loaders)]
+    scope = set(cg.reachable(keys)) | set(keys)
+    nuse = nfun = 0
+    for k in sorted(scope):
+        f = prog.functions.get(k)
+        if f is None or not f.get('body') or '/programs/' in f.get('file', ''):
+            continue
+        nfun += 1
+        uses = [c for c in astu.calls(f['body']) if c['callee']['qn'] in _TEXT2FLOAT]
+        if not uses:
+            continue
+        F = cppflow.Flow(f)
+        guards = F.throw_guards()
+        for c in uses:
+            nuse += 1
+            # the variable that receives the value
+            tgt = None
+            for d in astu.walk(f['body']):
+                if d['k'] == 'Decl':
+                    for v in d['vars']:
+                        if 'init' in v and any(x is c for x in astu.walk(v['init'])):
+                            tgt = v['name']
+                elif d['k'] == 'Bin' and d.get('op') == '=' and any(x is c for x in astu.walk(d['b'])):
+                    tgt = astu.src(d['a'])
+            ok = False
+            if tgt is not None:
+                for b, arm in guards:
+                    t = ir.fmt(b.stmt[1])
+                    if tgt in t and ('isfinite' in t or ('isnan' in t and 'isinf' in t)):
+                        ok = True
+            rep.add('FINITE.text-to-float', '%s:%s' % (f['name'], tgt or c.get('l')), where(f, c.get('l')),
+                    '%s: the value `%s = %s(...)` is refused unless finite' % (f['name'], tgt or '?', c['callee']['qn']), ok,
+                    None if ok else ['no throw guard tests isfinite(%s): the spellings nan / inf / 0x1p5 / 5e999 are converted without '
+                                     'error and the value is stored (range tests written as `x < lo || x > hi` are false for NaN)'
+                                     % (tgt or 'the result')])
+    rep.add('FINITE.text-to-float', 'all', 'bxdecay0/', '%d library functions reachable from the file loaders scanned: %d text-to-float '
+            'conversion(s) outside stream extraction' % (nfun, nuse), True, nontrivial=False)
+    rep.floor('FINITE.text-to-float', nfun, 15)
